@@ -657,6 +657,7 @@ func (db *DB) Pos() (ltx.Pos, error) {
 	}
 
 	pos := dec.PostApplyPos()
+	verifhook.Yield("pos:read_local")
 	db.pos.value = &pos
 
 	return pos, nil
